@@ -79,7 +79,7 @@ META = {
     'models': ['M1'],
 }
 
-SIGNATURES = {'calc-wild-dep-dropped': runlib.sig_calc_wild_dropped}
+SIGNATURES = {}     # calc-wild-dep-dropped was fixed upstream (bf53535)
 # dup-selection-truncates was fixed upstream (dcfe778); runlib.sig_dup_selection still names it in replays
 
 # generator knobs of this property: shared deps, groups, shared setup-tasks, repeated selection
